@@ -140,7 +140,7 @@ def h_recon(H):
             m = z3.Int(f"nchn{s}")
             it.ctx.assume(z3.And(m >= 1, m <= nch))
             ch = A.fresh_array(f"chns{s}", "int64", (m,), ranged=False)
-            ch.facts_on_read = (lambda idx, t: [t >= 0, t < nch])
+            A.assume_range(ch, 0, nch - 1)
             k, k2 = z3.Int(fresh_name("k")), z3.Int(fresh_name("k"))
             it.ctx.assume(z3.ForAll([k], z3.Implies(z3.And(k >= 0, k < m - 1), z3.And(ch.uf(k) >= 0, ch.uf(k) < napch)), patterns=[ch.uf(k)]))
             it.ctx.assume(z3.ForAll([k, k2], z3.Implies(z3.And(k >= 0, k < k2, k2 < m), ch.uf(k) < ch.uf(k2)), patterns=[z3.MultiPattern(ch.uf(k), ch.uf(k2))]))
